@@ -22,6 +22,8 @@ static int c03_coef(unsigned long long seed, int kind, int prec, int ci, int by,
   case 3: return (int)(h % 255ULL) - 127;
   case 4: return k == 63 ? ((h & 1ULL) ? 1 : -3) : (k == 0 ? (int)(h % 9ULL) - 4 : 0);
   case 5: return 0;
+  case 7: /* every AC coefficient stays nonzero at every point transform: refinement scans are all correction bits */
+    return k == 0 ? (int)(h % 9ULL) - 4 : ((h & 1ULL) ? 1 : -1) * (8 + (int)((h >> 3) % 100ULL));
   default: { /* mostly-flat with rare isolated blocks: long EOB runs broken at odd places */
     if ((h >> 20) % 97ULL) return k == 0 ? 5 : 0;
     return (int)((h >> 4) % 7ULL) - 3; }
@@ -323,8 +325,23 @@ static int c03_seqbytes(toks_t *t)
   return 1;
 }
 
+/* progfile seed w h ri hs vs nc kind sseed : whole progressive Huffman file (mode 2 = jpeg_simple_progression, mode 3 = seeded script) */
+static int c03_progfile(toks_t *t)
+{
+  c03_job j; unsigned char *jp = NULL; unsigned long n = 0, i; int err = 0; unsigned long long h = 14695981039346656037ULL;
+  memset(&j, 0, sizeof(j));
+  j.seed = (unsigned long long)tll(t, 1); j.w = (int)tl(t, 2); j.h = (int)tl(t, 3); j.ri = (int)tl(t, 4); j.nc = (int)tl(t, 7);
+  j.ss = j.nc == 1 ? 3 : (int)tl(t, 5) * 10 + (int)tl(t, 6); j.prec = 8; j.kind = (int)tl(t, 8); j.sseed = (unsigned long long)tll(t, 9);
+  j.mode = j.sseed ? 3 : 2;
+  if (!c03_build(&j, &jp, &n, &err)) { printf("R err build %d\n", err); return 1; }
+  for (i = 0; i < n; i++) { h ^= jp[i]; h *= 1099511628211ULL; }
+  if (getenv("C03_DUMP")) { FILE *f = fopen(getenv("C03_DUMP"), "wb"); if (f) { fwrite(jp, 1, n, f); fclose(f); } }
+  printf("R %lu %llu\n", n, h); free(jp); return 1;
+}
+
 static int dispatch_c03(toks_t *t)
 {
+  if (!strcmp(t->tok[0], "progfile") && t->n >= 10) return c03_progfile(t);
   if (!strcmp(t->tok[0], "ent") && t->n >= 12) return c03_ent(t);
   if (!strcmp(t->tok[0], "t81") && t->n >= 2) return c03_t81(t);
   if (!strcmp(t->tok[0], "t81c") && t->n >= 3) return c03_t81(t);
